@@ -240,6 +240,13 @@ def layouts(draw):
         case["experiment"] = draw(st.one_of(st.none(), st.sampled_from([x["name"] for x in xps])))
     else:
         case["clean"] = draw(st.booleans())
+        if draw(st.integers(0, 3)) == 0:
+            # one job was stored under a former identifier and repaired with `deprecated list --fix`:
+            # jobs/<new type>/<new id> is a link to its directory, and the indices name the new path
+            r = draw(st.integers(0, n - 1))
+            case["repaired"] = r
+            if not any(r in x["jobs"] or r in (x["bak"] or []) for x in xps):
+                xps[0]["jobs"] = sorted(set(xps[0]["jobs"]) | {r})
     return case
 
 
@@ -294,9 +301,16 @@ def materialise(root: Path, case):
             (root / "xp" / x["name"] / sub).mkdir(parents=True, exist_ok=True)
             for i in idx:
                 j = case["jobs"][i]
-                link = root / "xp" / x["name"] / sub / j["type"] / j["id"]
+                jtype, jid = j["type"], j["id"]
+                if case.get("repaired") == i:
+                    jtype, jid = "vx.renamed", "ff" + j["id"][2:]
+                    alias = root / "jobs" / jtype / jid
+                    if not alias.is_symlink():
+                        alias.parent.mkdir(parents=True, exist_ok=True)
+                        alias.symlink_to(root / "jobs" / j["type"] / j["id"])
+                link = root / "xp" / x["name"] / sub / jtype / jid
                 link.parent.mkdir(parents=True, exist_ok=True)
-                link.symlink_to(root / "jobs" / j["type"] / j["id"])
+                link.symlink_to(root / "jobs" / jtype / jid)
 
 
 def snapshot(root: Path):
@@ -341,6 +355,8 @@ def prop_layouts(ctx, case):
         labels.append("layout:running-job")
     if any(x["bak"] is not None for x in case["xps"]):
         labels.append("layout:backup-index")
+    if case.get("repaired") is not None:
+        labels.append("layout:job-reached-through-a-repair-link")
     keep = set(range(len(jobs)))
     reported_running = set()
     sink = io.StringIO()
